@@ -33,7 +33,7 @@ class C20(Check):
     ID = 'C20'
     TRACE_FILES = ('logging.py', 'protocol/dispatcher.py')
     TIERS = {'quick': {'runs': 20000, 'wall': 70}, 'thorough': {'runs': 400000, 'wall': 800}}
-    RULE = ('case = (routing) 2 modules + 1..3 connections with generated {logging <module|.> <level>, *IDN?, ping, close} '
+    RULE = ('[routing: activate / deactivate (bare or per module) among the requests; rotation: symbolic links named like own files] ' 'case = (routing) 2 modules + 1..3 connections with generated {logging <module|.> <level>, *IDN?, ping, close} '
             'sequences incl. invalid levels/modules + emitter tasks logging records of all levels with unique tokens, '
             'also from poll threads; or (rotation) log directory pre-populated with dated, foreign and sub-directory '
             'entries, retention 0..5, records separated by clock jumps over 0..4 midnights, injected os.remove '
